@@ -3,6 +3,7 @@ package main
 import (
 	"fmt"
 	"os"
+	"sync/atomic"
 	"go/types"
 	"math/big"
 	"strings"
@@ -355,9 +356,13 @@ func (ex *Exec) assert(cond *Term, label string) {
 			r = ex.pool.Check(script, ms*3, ms*10)
 		}
 		if r == Unsat && ex.eng.tier == "thorough" && ex.eng.crossCheck {
-			r2, who := ex.pool.CheckBoth(script, ms*3)
+			r2, who := ex.pool.CheckBoth(script, 5000) // a second opinion within 5 s; cvc5 not answering in time leaves the z3 verdict
 			if r2 != Unsat {
 				ex.res.Unknown = append(ex.res.Unknown, "assert-crosscheck:"+label+":"+who)
+			} else if who == "z3+cvc5" {
+				atomic.AddInt64(&stats.CrossBoth, 1)
+			} else {
+				atomic.AddInt64(&stats.CrossOne, 1)
 			}
 		}
 	}
